@@ -117,8 +117,8 @@ class Resolve:
     NAME = "resolve"
     ENGINE = "resolve"
     IMPORTS = Mw.IMPORTS
-    FN = "res_check"
-    TY = "res_case"
+    FN = "res_check2"
+    TY = "res_src"
     SHARD = 200
     HARNESS_SHARDS = 8
 
@@ -143,12 +143,21 @@ class Resolve:
         return c
 
     @staticmethod
-    def to_gallina(c, o):
+    def to_gallina_case(c, o):
         if o.get("decode_err"):
             return 'Build_res_case GErr [] ""%string None false ""%string false'
         obs = "None" if (o["err"] or o["panic"]) else "(Some %s)" % tj({"l": o["insts"]})
         return "Build_res_case %s %s %s %s %s %s %s" % (tj(o["cluster"]), tj(o["eds"]), gstr(c["desc"]), obs,
                                                      gbool(o["cacheable"]), gstr(o["cache_key"]), gbool(bool(o["panic"])))
+
+    @classmethod
+    def to_gallina(cls, c, o):
+        base = cls.to_gallina_case(c, o)
+        if o.get("decode_err"):
+            # the decoders rejected the generated messages: nothing was resolved (C13's business)
+            return "Build_res_src (%s) None [] true true" % base
+        src_cl = "None" if o.get("src_cluster") is None else "(Some %s)" % tj(o["src_cluster"])
+        return "Build_res_src (%s) %s %s %s %s" % (base, src_cl, tj({"l": o.get("src_eds") or []}), gbool(c["fault_cl"] != ""), gbool(c["fault_ep"] != ""))
 
     @staticmethod
     def nontrivial(c, o):
@@ -179,7 +188,7 @@ class Resolve:
     @classmethod
     def model_view(cls, c, o, tier):
         from . import core
-        return core.coq_show(PROP, tier, cls.IMPORTS, "let c := %s in resolve (rs_cluster c) (eds_fun (rs_eds c))" % cls.to_gallina(c, o))[:2000]
+        return core.coq_show(PROP, tier, cls.IMPORTS, "let c := %s in resolve (rs_cluster c) (eds_fun (rs_eds c))" % cls.to_gallina_case(c, o))[:2000]
 
     @staticmethod
     def histogram(cases, obs):
